@@ -146,7 +146,7 @@ def parse(response: HTTPResponse, decode_json: bool = True, resolve_refs: bool =
         if response.code in [302, 303]:
             raise Redirect(response.headers.get('Location', ''))
 
-        if decode_json:
+        if decode_json and isinstance(body, dict):
             raise HTTPError(response.code, body.pop('error', ''), **body)
 
         raise HTTPError(response.code, response.reason)
